@@ -276,6 +276,13 @@ def replay(prop: str, path: str) -> int:
         from . import driver_timing
         from fractions import Fraction as F
         c = rp["case"]
+        if c.get("kind") == "susp":
+            files = common.write_shards([[driver_timing.susp_run(c["tps"], c["ram"], 0)]], 1, "rt")
+            mon = common.run_monitor("TraceTiming", "TraceTiming.cfg", files)
+            for v in mon.viols:
+                print("  ", json.dumps(v)[:400])
+                rep.violation(v[2], v[3])
+            return 1 if rep.violations else 0
         line = c if "obs" not in c else None
         # the recorded case carries the inputs in the monitor's units: rebuild the container run from them
         case = {"tps": c["tps"], "cpus": F(c["c2"], 2), "ram": F(c["ram"], 1000),
